@@ -252,6 +252,16 @@ async fn run_ss(args: &[&str]) -> String {
                 let r = x.sess.write_data_frame(sid, Bytes::from(d)).await;
                 out.push(if r.is_ok() { "w+" } else { "w-" }.to_string());
             }
+            "V" => {
+                // two write_data_frame calls of one task on one stream, back to back (no yield in between)
+                let x = &mut sides[idx(p[1])];
+                let sid: u32 = p[2].parse().unwrap();
+                let d1 = x.next_payload(sid, p[3].parse().unwrap());
+                let d2 = x.next_payload(sid, p[4].parse().unwrap());
+                let r1 = x.sess.write_data_frame(sid, Bytes::from(d1)).await;
+                let r2 = x.sess.write_data_frame(sid, Bytes::from(d2)).await;
+                out.push(format!("v{}{}", if r1.is_ok() { "+" } else { "-" }, if r2.is_ok() { "+" } else { "-" }));
+            }
             "S" | "A" => {
                 let x = &mut sides[idx(p[1])];
                 let sid: u32 = p[2].parse().unwrap();
